@@ -275,6 +275,25 @@ def cases(rng, tier):
             else:
                 evs.append(['badlen'])
         yield {'seq0': seq0, 'events': evs}
+    # the application publishes from inside the missing-data callback (the callback only has to be non-blocking): the
+    # publication must be announced promptly whatever the handler still does after the callback.  Oracle only.
+    for _ in range(120 if tier == 'quick' else 3000):
+        seq0 = rng.choice([0, 0, 1, 3])
+        hint = {'/n0': seq0}
+        evs = []
+        for _ in range(rng.randint(1, 8)):
+            r = rng.random()
+            if r < 0.6:
+                evs.append([('rp' if rng.random() < 0.5 else 'r'), _vector(rng, hint)])
+                if evs[-1][0] == 'rp':
+                    hint['/n0'] = hint.get('/n0', 0) + 1       # (an upper bound: the callback may not fire)
+            elif r < 0.75:
+                evs.append(['p'])
+                hint['/n0'] = hint.get('/n0', 0) + 1
+            else:
+                evs.append(['t'])
+        if any(e[0] == 'rp' for e in evs):
+            yield {'seq0': seq0, 'events': evs}
 
 
 def _byte_cases(rng, n):
@@ -379,6 +398,7 @@ def run_impl(case):
     svs_sync.time, svs_sync.secrets = _T, _S
     try:
         missing = []
+        pub_in_cb = []       # 'rp': the application publishes from inside the missing-data callback (it is only required not to block)
         app = _FakeApp()
         me_uri = case.get('me', NODES[0])
         base_uri = _base_uri(case)
@@ -406,7 +426,7 @@ def run_impl(case):
             kw = {'sync_interval': case['intervals'][0], 'suppression_interval': case['intervals'][1]}
         inst = svs_sync.SvsInst(_name_arg(enc, case['base_arg']) if case.get('base_arg') else BASE,
                                 _name_arg(enc, case['me_arg']) if case.get('me_arg') else me_uri,
-                                lambda i: missing.append(1), None, None,
+                                lambda i: (missing.append(1), pub_in_cb.pop()() if pub_in_cb else None), None, None,
                                 last_used_seq_num=case['seq0'], **kw)
         running = False
         initial = {'local': _canon_vec(inst.local_sv), 'self_seq': inst.self_seq}
@@ -456,10 +476,12 @@ def run_impl(case):
             if exact:
                 rec['exact'] = True
                 loop._vt = max(inst.next_sync_timing, loop.time())
-            if kind in ('r', 'raw', 'badlen', 'comp'):
+            if kind in ('r', 'rp', 'raw', 'badlen', 'comp'):
+                if kind == 'rp':
+                    pub_in_cb[:] = [inst.new_data]
                 if kind == 'comp':
                     comp = bytes.fromhex(ev[1])
-                elif kind == 'r':
+                elif kind in ('r', 'rp'):
                     pkt = StateVecWrapper()
                     pkt.val = StateVec()
                     pkt.val.entries = []
@@ -496,6 +518,7 @@ def run_impl(case):
                         loop.call_now(handler, name, None, None, None)
                 except Exception as e:           # noqa
                     exc = c18_bytes.exc_name(e)
+                pub_in_cb.clear()
                 if exact:
                     # whether the timer still expired at this instant is read off its observable effects: a timer in
                     # steady state emits, a timer in suppression returns to steady state
@@ -559,6 +582,8 @@ def _model_recs(impl):
 def model_line(case, impl):
     if case['seq0'] < 0:
         return None             # the model's sequence numbers are naturals: oracle only
+    if any(e[0] == 'rp' for e in case['events']):
+        return None             # a publication made from inside the missing-data callback: one record, two model events; oracle only
     recs, pre = _model_recs(impl)
     if not any(r['ev'] == 'start' or r.get('running', True) for r in impl['trace']) and impl['trace']:
         return None             # never started
@@ -659,7 +684,7 @@ def oracle(case, impl):
         for i, q in before.items():
             if after.get(i, 0) < q:
                 return f'event {k}: local vector decreased at {i}'
-        if rec['ev'] in ('r', 'raw', 'badlen', 'comp'):
+        if rec['ev'] in ('r', 'rp', 'raw', 'badlen', 'comp'):
             dec = rec['decoded']
             accepted = isinstance(dec, list) and len(dec) > 0
             vec = {}
@@ -668,16 +693,23 @@ def oracle(case, impl):
                     if i == self_id and q is not None and q > rec['self_seq_before']:
                         accepted = False
                 vec = _spec_vec(dec)
+            published = False
             if accepted:
                 exp = dict(before)
                 for i, q in vec.items():
                     if exp.get(i, 0) < q:
                         exp[i] = q
+                raised = any(before.get(i, 0) < q for i, q in vec.items())
+                # 'rp': the application answers the missing-data callback by publishing at once (from inside it)
+                published = rec['ev'] == 'rp' and raised
+                if published:
+                    if rec['self_seq'] != rec['self_seq_before'] + 1:
+                        return f'event {k}: publish (from the missing-data callback) did not increase the sequence number by one'
+                    exp[self_id] = rec['self_seq']
                 # entries equal to 0 may or may not be materialised; compare as total functions
                 keys = set(exp) | set(after)
                 if any(exp.get(i, 0) != after.get(i, 0) for i in keys):
                     return f'event {k}: local vector is not the entry-wise maximum of previous and received vector'
-                raised = any(before.get(i, 0) < q for i, q in vec.items())
             else:
                 if before != after:
                     return f'event {k}: a vector that is not accepted changed the local vector'
@@ -688,6 +720,13 @@ def oracle(case, impl):
                 return f'event {k}: missing-data callback fired={rec["missing"]} but vector raised an entry={raised}'
             if rec['missing'] > 1:
                 return f'event {k}: callback fired more than once'
+            if published:
+                if rec['emitted'] != [rec['local']]:
+                    return (f'event {k}: a publication made from the missing-data callback did not promptly emit exactly '
+                            f'one sync Interest with the full vector (emitted {len(rec["emitted"])})')
+                heard = None
+                mode = None
+                continue
             if rec['emitted']:
                 return f'event {k}: sync Interest emitted while handling a received vector'
             if accepted:
